@@ -54,6 +54,10 @@ KEY_FD_EULER_STALE = ("mjd_transitionFD with Euler: qvel columns use the unpertu
 KEY_FD_IMPLICIT_STALE = ("mjd_transitionFD with implicit/implicitfast: ctrl/act columns use the unperturbed factorisation of M-h*D "
                          "(mj_stepSkip skips it for skipstage>=VEL) although D depends on ctrl/act through velocity-dependent actuator gains")
 
+KEY_FLUID_CLAMP = ("ellipsoid fluid model: d(A_proj)/d(velocity) in mjd_viscous_drag is clamped by mjMINVAL applied to "
+                   "sqrt(proj_num^3*proj_denom) ~ size^10*speed^4, so the drag derivative is wrong for cm-sized geoms below ~0.2 m/s relative speed")
+MJMINVAL = 1e-15
+
 GAIN = {"fixed": 'gaintype="fixed" gainprm="0.7"', "affine": 'gaintype="affine" gainprm="0.7 0.2 -0.3"',
         "muscle": 'gaintype="muscle" gainprm="0.75 1.05 -1 200 0.5 1.6 1.5 1.3 1.2"'}
 BIAS = {"none": 'biastype="none"', "affine": 'biastype="affine" biasprm="0.1 -2 -0.5"',
@@ -171,6 +175,36 @@ def fd_forces(lib, m, d, v0, eps, nobias):
     return out
 
 
+def semiaxes(gtype, size):
+    """documented ellipsoid approximation of a geom (fluid.rst): sphere r,r,r; capsule r,r,l+r; cylinder r,r,l; else size"""
+    if gtype == 2:
+        return [size[0]] * 3
+    if gtype == 3:
+        return [size[0], size[0], size[1] + size[0]]
+    if gtype == 5:
+        return [size[0], size[0], size[1]]
+    return list(size)
+
+
+def fluid_clamp_active(lib, m, d):
+    """True if for some ellipsoid-fluid geom sqrt(proj_num^3 * proj_denom) of the relative velocity is below mjMINVAL."""
+    wind = np.array(m.opt.wind, float)
+    res = np.zeros(6)
+    for g in range(m.ngeom):
+        if np.array(m.geom_fluid).reshape(m.ngeom, -1)[g][0] <= 0:
+            continue
+        lib.mj_objectVelocity(m, d, 5, g, res, 1)
+        R = np.array(d.geom_xmat[g]).reshape(3, 3)
+        x, y, z = res[3:] - R.T @ wind
+        s0, s1, s2 = semiaxes(int(m.geom_type[g]), [float(v) for v in m.geom_size[g]])
+        a, b, cc = (s1 * s2) ** 2, (s2 * s0) ** 2, (s0 * s1) ** 2
+        num = a * x * x + b * y * y + cc * z * z
+        den = a * a * x * x + b * b * y * y + cc * cc * z * z
+        if 0 < np.sqrt(num ** 3 * den) < MJMINVAL:
+            return True
+    return False
+
+
 def part_a(lib, part, c, ident, feat, par, js, arg):
     m, d, d2, mi = c["m"], c["d"], c["d2"], c["mi"]
     nv = mi.nv
@@ -180,6 +214,11 @@ def part_a(lib, part, c, ident, feat, par, js, arg):
     if nv:
         e = np.zeros(nv)
         e[0] = -0.8
+        vs.append(e)
+    if feat.startswith("fluid_ell") and js[0] == "free":
+        # a free root moving slowly (0.03 m/s) relative to the wind while spinning slowly: low relative speed of a cm-sized geom
+        e = 0.2 * np.array(vs[1], float)
+        e[:3] = np.array(m.opt.wind, float) + 0.03 * np.array([0.8, 0.48, -0.36])
         vs.append(e)
     for qi, q in enumerate(qs):
         for vi, v in enumerate(vs):
@@ -218,7 +257,10 @@ def part_a(lib, part, c, ident, feat, par, js, arg):
                 err = float(np.max(np.abs(np.where(pat, D - Fexp, 0.0)))) / scale if nv else 0.0
                 if err > TOL_D:
                     i, j = np.unravel_index(np.argmax(np.abs(np.where(pat, D - Fexp, 0.0))), D.shape)
-                    part.violation("qDeriv != FD of smooth forces [%s] %s" % (U.INT_NAME[integ], ident),
+                    key = "qDeriv != FD of smooth forces [%s] %s" % (U.INT_NAME[integ], ident)
+                    if feat.startswith("fluid_ell") and fluid_clamp_active(lib, m, d):
+                        key = KEY_FLUID_CLAMP
+                    part.violation(key,
                                    "qDeriv[%d,%d]=%.9g but finite difference gives %.9g (rel err %.3g, %s, state %d/%d, %s)" % (
                                        i, j, D[i, j], Fexp[i, j], err, U.INT_NAME[integ], qi, vi, ident), rp)
                 out = float(np.max(np.abs(np.where(pat, 0.0, Fexp)))) if nv else 0.0
@@ -584,7 +626,8 @@ def run(ctx):
             do_fd = (feat in FD_FEATS) or (feat == "act" and arg in FD_ACTS)
             items.append((par, js, feat, arg, do_fd))
     # canonical minimal replays of the confirmed root causes first (in-process)
-    ctx.merge(_chunk([((-1,), ("hinge",), "jdamp", None, True),
+    ctx.merge(_chunk([((-1,), ("free",), "fluid_ell", None, False),
+                      ((-1,), ("hinge",), "jdamp", None, True),
                       ((-1,), ("hinge",), "act", ("fixed", "none", "none", "joint", ""), True),
                       ((-1,), ("hinge",), "act", ("affine", "affine", "filter", "joint", ""), True)]))
     core.pmap(ctx, _chunk, items, nchunks=min(len(items), 512))
